@@ -1,0 +1,22 @@
+//go:build verif && linux && !appengine
+
+package fsnotify
+
+// VerifInotifyState returns a read-only snapshot of the inotify backend: the
+// notification descriptor and the sizes of the two bookkeeping tables.
+func VerifInotifyState(w *Watcher) (fd, nWd, nPath int) {
+	b := w.b.(*inotify)
+	b.mu.Lock()
+	defer b.mu.Unlock()
+	return b.fd, len(b.watches.wd), len(b.watches.path)
+}
+
+// VerifInotifyNewEvent runs the inotify flag translation on a fresh backend
+// value (no kernel resources).
+func VerifInotifyNewEvent(name string, mask, cookie uint32) Event {
+	b := &inotify{}
+	return b.newEvent(name, mask, cookie)
+}
+
+// VerifDefaultBufferSize returns the platform default Events capacity.
+func VerifDefaultBufferSize() int { return defaultBufferSize }
